@@ -2,7 +2,7 @@
    Only statements, each closed by [exact] of a lemma from Proofs/. *)
 From Tola Require Import Py.Base Model.Fragment Model.Scaffold Model.Fasta Model.Stream Model.FastaSpec
   Proofs.FastaIndex Proofs.StreamFinal.
-From Tola Require Proofs.Stream.
+From Tola Require Proofs.Stream Proofs.FastaEndToEnd.
 
 (* For every well-formed FASTA layout (>= 1 record, distinct non-empty names
    without blanks, optional description, >= 1 residue per record, residues free
@@ -38,19 +38,42 @@ Theorem C04_empty_file_rejected : forall buf, index_fasta [] buf = Err ValueErro
 Proof. exact empty_file_rejected. Qed.
 Print Assumptions C04_empty_file_rejected.
 
-(* streaming any scaffold over an accessible file gives header + wrapped row
-   bytes (C03); with C04_random_access the access premise holds for every
-   rendered file, so streaming the derived assembly reproduces each record with
-   the bytes of each gap row replaced by the gap character *)
-Theorem C04_stream_back : forall file idx seqs buf L gap_char name rows body,
+(* End to end, for EVERY well-formed rendered file, every index buffer, every
+   stream buffer and every line length: index the file, stream the DERIVED
+   assembly back through the index just built -- the output is, record by
+   record and in file order, ">" name LF and the record's residues wrapped at
+   L, where every residue outside ACGTacgt (the gap rows) is replaced by the
+   gap character.  Nothing is lost, duplicated or shifted. *)
+Theorem C04_stream_back : forall w eol final_nl recs ibuf idx asm peak buf L gap_char,
+  fasta_wf w eol recs ->
+  index_fasta (render w eol final_nl recs) ibuf = Ok (idx, asm, peak) ->
   1 <= buf -> (1 <= L)%nat ->
-  Proofs.Stream.seqs_accessible file idx seqs ->
-  gaps_nonneg rows ->
-  rows_bytes seqs gap_char rows = Some body ->
-  write_scaffold file idx buf (Z.of_nat L) gap_char name rows
-  = Ok (GT :: name ++ LF :: wrap_body L body).
-Proof. exact write_scaffold_final. Qed.
+  write_assembly (render w eol final_nl recs) idx buf (Z.of_nat L) gap_char asm
+  = Ok (concat (map (fun r => GT :: r_name r ++ LF
+                       :: wrap_body L (Proofs.FastaEndToEnd.mask gap_char (r_seq r))) recs)).
+Proof. exact Proofs.FastaEndToEnd.stream_back. Qed.
 Print Assumptions C04_stream_back.
+
+(* every record of a well-formed rendered file is readable through the index
+   the spec predicts (the access premise of C03 is discharged for all of them) *)
+Theorem C04_rendered_accessible : forall w eol final_nl recs,
+  fasta_wf w eol recs ->
+  Proofs.Stream.seqs_accessible (render w eol final_nl recs) (expected_index w eol recs)
+    (Proofs.FastaEndToEnd.seqs_of recs).
+Proof. exact Proofs.FastaEndToEnd.rendered_accessible. Qed.
+Print Assumptions C04_rendered_accessible.
+
+(* non-vacuity of C04_stream_back: a CRLF file without final newline, streamed
+   back with buffer 3 and line length 4 *)
+Theorem C04_stream_back_instance :
+  match index_fasta Proofs.FastaEndToEnd.e2e_file 4 with
+  | Ok (idx, asm, _) => write_assembly Proofs.FastaEndToEnd.e2e_file idx 3 4 "-"%char asm
+  | Err e => Err e
+  end
+  = Ok (s ">chr1" ++ LF :: s "ACGT" ++ LF :: s "----" ++ LF :: s "acgt" ++ LF :: s "--AC" ++ [LF]
+        ++ s ">scaffold_2" ++ LF :: s "--AC" ++ LF :: s "GTAC" ++ LF :: s "GTA-" ++ [LF]).
+Proof. exact Proofs.FastaEndToEnd.e2e_stream_back_computed. Qed.
+Print Assumptions C04_stream_back_instance.
 
 (* the scanner of the pinned commit dropped the last residue of a file without
    a final newline (repaired by a fix: commit) *)
